@@ -11,11 +11,7 @@ Import ListNotations.
 Local Open Scope Z_scope.
 
 (* ---- Rust f64 helpers ---- *)
-(* f64::max / f64::min: a NaN operand is ignored *)
-Definition fmax (a b : f64) : f64 :=
-  if f_is_nan a then b else if f_is_nan b then a else if flt a b then b else a.
-Definition fmin (a b : f64) : f64 :=
-  if f_is_nan a then b else if f_is_nan b then a else if flt b a then b else a.
+(* f64::max / f64::min (a NaN operand is ignored): fmax / fmin of Base/F64.v *)
 (* f64::clamp(min, max): NaN stays NaN *)
 Definition fclamp (x lo hi : f64) : f64 :=
   if flt x lo then lo else if fgt x hi then hi else x.
